@@ -2,6 +2,7 @@ SPECIFICATION MCSpec
 CONSTANTS
   MC_Ns = {2}
   MC_Topos <- ToposPair
+  MC_MaxFail = 1
   Defect_HandoffLost = TRUE
   YieldTransparent = FALSE
   KeepHist = FALSE
